@@ -79,11 +79,18 @@ func zzNewDown(codec string) (*rtpDownTrack, *zzUpTrack) {
 // zzVP8 builds a single-packet VP8 frame: 12-byte RTP header, descriptor with
 // X=1, I=1 (picture id, 15 bits if m15 else 7), T=1 (tid, Y), one payload byte.
 func zzVP8(seqno uint16, marker bool, start bool, pid uint16, m15 bool, tid uint8, y bool, keyframe bool, n bool) []byte {
+	return zzVP8Part(seqno, marker, start, 0, pid, m15, tid, y, keyframe, n)
+}
+
+// zzVP8Part: the same with an explicit partition index (the low three bits of
+// the first descriptor octet): a packet starts a frame only if S=1 AND the
+// partition index is 0 (RFC 7741 4.2).
+func zzVP8Part(seqno uint16, marker bool, start bool, part uint8, pid uint16, m15 bool, tid uint8, y bool, keyframe bool, n bool) []byte {
 	b := []byte{0x80, 96, byte(seqno >> 8), byte(seqno), 0, 0, 0, 1, 0, 0, 0, 2}
 	if marker {
 		b[1] |= 0x80
 	}
-	d0 := byte(0x80)
+	d0 := byte(0x80) | (part & 7)
 	if n {
 		d0 |= 0x20
 	}
@@ -204,12 +211,14 @@ func H_C04_WriteVP8() {
 	s := v.U16("seqno")
 	// the map has seen the predecessor, so this packet is the in-order successor
 	down.packetmap.Map(s-1, 0)
-	start := v.Bool("start")
+	sbit := v.Bool("start")
+	part := v.U8("part") & 7
+	start := v.And(sbit, part == 0) // RFC 7741: beginning of the first partition
 	kf := v.Bool("keyframe")
 	tid := v.U8("tid")
 	v.Assume(tid <= 3)
 	y := v.Bool("y")
-	pkt := zzVP8(s, v.Bool("marker"), start, v.U16("pid")&0x7FFF, true, tid, y, kf, false)
+	pkt := zzVP8Part(s, v.Bool("marker"), sbit, part, v.U16("pid")&0x7FFF, true, tid, y, kf, false)
 	down.Write(pkt)
 	post := down.getLayerInfo()
 	v.Assert(zzLInv(post), "selected layers never exceed the layers seen; packing invariant preserved")
@@ -382,6 +391,78 @@ func H_C04_WriteVP9() {
 		v.Reach("nonref")
 	} else {
 		v.Assert(len(zzOut) == 1, "a packet within the selection is forwarded")
+		v.Reach("forwarded")
+	}
+	v.Reach("end")
+}
+
+
+// H_C12_WriteLength: one VP8 packet (any field values, 7- or 15-bit picture
+// id) through the real Write on the REWRITING path (the map has withheld a
+// packet, so seqno and picture id are shifted): what reaches the wire has
+// exactly the length of what came in, the input buffer is untouched, and
+// nothing panics.
+func H_C12_WriteLength() {
+	m15 := v.Choice("m15", 2) == 1
+	down, _ := zzNewDown("video/vp8")
+	down.setLayerInfo(layerInfo{tid: 1, wantedTid: 1, maxTid: 1})
+	s := v.U16("seqno")
+	down.packetmap.Map(s-2, 0)
+	ok := down.packetmap.Drop(s-1, 1)
+	v.Assume(ok)
+	tid := v.U8("tid") & 1
+	pkt := zzVP8Part(s, v.Bool("marker"), v.Bool("start"), v.U8("part")&7, v.U16("pid")&0x7FFF, m15, tid, v.Bool("y"), v.Bool("keyframe"), v.Bool("n"))
+	in := make([]byte, len(pkt))
+	copy(in, pkt)
+	n, err := down.Write(pkt)
+	v.Assert(err == nil, "a well-formed packet is not refused")
+	v.Assert(len(zzOut) == 1, "a packet within the selected layers is forwarded")
+	if len(zzOut) == 1 {
+		v.Assert(len(zzOut[0]) == len(in), "forwarding never changes a packet's length")
+		v.Assert(n == len(in), "and the byte count reported for rate accounting is the packet's length")
+		so, _, _, okp := zzParse(zzOut[0])
+		v.Assert(okp && so == s-1, "the packet went through the rewriting path")
+	}
+	for i := range pkt {
+		v.Assert(pkt[i] == in[i], "the caller's buffer is never modified")
+	}
+	v.Reach("end")
+}
+
+// H_C02_MarkerVP9: ONE VP9 packet through the real Write from an arbitrary
+// layer state: the marker bit is only ever set, never cleared, and only on
+// the last packet (E) of a frame of the highest forwarded spatial layer;
+// timestamp, payload and length are untouched.
+func H_C02_MarkerVP9() {
+	down, _ := zzNewDown("video/vp9")
+	_ = v.Choice("_", 1)
+	pre := zzArbitraryLayer("pre")
+	down.setLayerInfo(pre)
+	s := v.U16("seqno")
+	down.packetmap.Map(s-1, 0)
+	e := v.Bool("E")
+	tid, sid := uint8(v.Choice("tid", v.Param("L"))), uint8(v.Choice("sid", v.Param("L")))
+	min := v.Bool("marker")
+	pkt := zzVP9(s, min, v.Bool("B"), e, v.Bool("P"), tid, sid, v.Bool("U"), v.Bool("D"), v.Bool("keyframe"), v.Bool("Z"))
+	in := make([]byte, len(pkt))
+	copy(in, pkt)
+	down.Write(pkt)
+	post := down.getLayerInfo()
+	if len(zzOut) == 1 {
+		out := zzOut[0]
+		v.Assert(len(out) == len(in), "length unchanged")
+		if len(out) == len(in) {
+			mout := out[1]&0x80 != 0
+			v.Assert(v.Implies(min, mout), "the marker bit is never cleared")
+			if mout && !min {
+				v.Assert(v.And(e, sid == post.sid), "the marker bit is set only on the last packet of a frame of the highest forwarded spatial layer")
+				v.Reach("marker-set")
+			}
+			v.Assert(out[0] == in[0] && out[1]&0x7F == in[1]&0x7F, "first header octets unchanged")
+			for i := 4; i < len(in); i++ {
+				v.Assert(out[i] == in[i], "timestamp, SSRC and payload bytes unchanged")
+			}
+		}
 		v.Reach("forwarded")
 	}
 	v.Reach("end")
